@@ -289,6 +289,13 @@ func (gb *gcpBalancer) UpdateClientConnState(ccs balancer.ClientConnState) error
 		gb.initializeConfig(cfg)
 	}
 
+	// Replacement subconns of in-flight refreshes will take over their subConnRefs
+	// and must use the new addresses too.
+	for sc := range gb.refreshingScRefs {
+		sc.UpdateAddresses(addrs)
+		sc.Connect()
+	}
+
 	if len(gb.scRefs) == 0 {
 		// gb.mu is already held: newSubConn() would lock it again.
 		gb.addSubConn()
